@@ -53,9 +53,13 @@ fn hash_part<const P: u128>(case: &HashCase, cached_slot: usize, st: &mut Stats)
     let n = case.src.n();
     let t = case.src.tt();
     // maps for many variables keep the documented shape too (low + high = 1 mod P on every variable; a prefix of a
-    // longer map is the shorter map): checked on a size drawn from the case, up to 4000 variables
+    // longer map is the shorter map): checked on a size drawn from the case, up to 4000 variables (fewer where the
+    // library's own precondition on the field size says so)
     {
-        let big_n = 64 + (case.src.tt().0[0] % 3937) as usize;
+        // the library requires num_vars * 1000 < P (an assertion at the top of create_semantic_hash_map): at most 1000
+        // variables over the 20-bit prime
+        let cap = (((P - 1) / 1000) as usize).saturating_sub(1).max(1);
+        let big_n = (64 + (case.src.tt().0[0] % 3937) as usize).min(cap);
         let big = create_semantic_hash_map::<P>(big_n);
         let small = create_semantic_hash_map::<P>(n.max(1));
         for v in 0..big_n {
